@@ -158,6 +158,7 @@ def argmax_rule(model, res):
     if crit is None:
         raise AnalysisError("C20: arg-max shape not found in _withdraw_with_high_low (R-ARGMAX cannot be decided)")
     cand, best, ifnode = crit
+    arr = f.params[0]
     cdef = None
     for n in ast.walk(f.node):
         if isinstance(n, ast.Assign) and isinstance(n.targets[0], ast.Name) and n.targets[0].id == cand \
@@ -171,20 +172,39 @@ def argmax_rule(model, res):
                     best_init = v
     if cdef is None:
         raise AnalysisError("C20: criterion definition not found (R-ARGMAX)")
-    # substitute arr[i_high] -> H, arr[i] -> L
     src = ast.unparse(cdef)
-    hi_idx = [s.targets[0].id for s in ifnode.body if isinstance(s, ast.Assign) and isinstance(s.value, ast.Name)
-              and s.targets[0].id != best]
-    gexpr = _expr(model, f, cdef, ["arr", "i", "i_high"])
-    H = _expr(model, f, ast.parse("arr[i_high]", mode="eval").body, ["arr", "i", "i_high"])
-    L = _expr(model, f, ast.parse("arr[i]", mode="eval").body, ["arr", "i", "i_high"])
+    # the two index variables recorded together with the best value: `g_hi = hi; g_lo = lo`
+    recorded = [(s_.targets[0].id, s_.value.id) for s_ in ifnode.body if isinstance(s_, ast.Assign)
+                and isinstance(s_.targets[0], ast.Name) and isinstance(s_.value, ast.Name) and s_.targets[0].id != best]
+    frets = [n for n in ast.walk(f.node) if isinstance(n, ast.Return) and isinstance(n.value, ast.Tuple)]
+    if len(recorded) != 2 or len(frets) != 1:
+        raise AnalysisError("C20: recorded peak/trough indices not recognised in the drawdown helper (R-ARGMAX)")
+    ret_names = [e.id if isinstance(e, ast.Name) else None for e in frets[0].value.elts]
+    local_names = sorted({n.id for n in ast.walk(f.node) if isinstance(n, ast.Name)})
+    gexpr = _expr(model, f, cdef, local_names)
+    idx_syms = []
+    for gname, iname in recorded:
+        idx_syms.append((gname, _expr(model, f, ast.parse(f"{arr}[{iname}]", mode="eval").body, local_names)))
     # reported expression in max_draw_down
     rets = [n for n in ast.walk(g.node) if isinstance(n, ast.Return)]
     if len(rets) != 1:
         raise AnalysisError("C20: max_draw_down has no single return (R-ARGMAX)")
-    fexpr = _expr(model, g, rets[0].value, ["net_value", "idx_h", "idx_l", "max_value"])
-    Hr = _expr(model, g, ast.parse("net_value.iloc[idx_h]", mode="eval").body, ["net_value", "idx_h", "idx_l"])
-    Lr = _expr(model, g, ast.parse("net_value.iloc[idx_l]", mode="eval").body, ["net_value", "idx_h", "idx_l"])
+    unpack = None
+    for n in ast.walk(g.node):
+        if isinstance(n, ast.Assign) and isinstance(n.targets[0], ast.Tuple) and isinstance(n.value, ast.Call) \
+                and ast.unparse(n.value.func) == f.name:
+            unpack = [e.id if isinstance(e, ast.Name) else None for e in n.targets[0].elts]
+    if unpack is None or len(unpack) != len(ret_names):
+        raise AnalysisError("C20: call of the drawdown helper not recognised in max_draw_down (R-ARGMAX)")
+    gl_names = sorted({n.id for n in ast.walk(g.node) if isinstance(n, ast.Name)})
+    fexpr = _expr(model, g, rets[0].value, gl_names)
+    series = g.params[0]
+    rep_syms = []
+    for gname, _ in recorded:
+        k = ret_names.index(gname)
+        rep_syms.append(_expr(model, g, ast.parse(f"{series}.iloc[{unpack[k]}]", mode="eval").body, gl_names))
+    H, L = idx_syms[0][1], idx_syms[1][1]
+    Hr, Lr = rep_syms[0], rep_syms[1]
     hsym, lsym = sym("H"), sym("L")
 
     def subst(e: Rat, a: Rat, b: Rat):
